@@ -59,7 +59,7 @@ NotValid      == {"wrongXslNamespaceRoot", "unknownXslElement", "unknownXslAttri
                   "avtUnbalanced", "nonExpression", "undefinedVariable"}
 (* well-formed and valid: must succeed                                                                      *)
 MustSucceed   == {"seed", "wrongXslNamespaceInner", "numberLiteral", "numberFormat", "numberValue", "longName",
-                  "cdataBracket", "paramExpression", "manyDecimalFormats"}
+                  "cdataBracket", "paramExpression", "manyDecimalFormats", "manyDefaultCounts"}
 (* nesting depth d: a program / document / expression of any depth is valid; an implementation may impose a *)
 (* limit above depth 100 but must then REPORT it                                                            *)
 DeepClasses   == {"deepDocument", "deepTemplateBody", "deepParens", "deepPredicates", "deepSteps"}
